@@ -853,7 +853,7 @@ def _run_case(case, run, res, model):
             at_rest_check(True)
     # -- C05 on the event stream: every failed eject is retried with the next attempt number, reported lost, or the
     #    device reports itself broken exactly once and never tries again
-    _retry_or_report(run.obs, res)
+    _retry_or_report(run.obs, res, p)
     res.count("transient_balls_property_minus_one", run.transient_negative)
     res.obs_len = len(run.obs)
     res.world_len = len(world.history)
@@ -880,9 +880,14 @@ def _servable(s, p):
     return False
 
 
-def _retry_or_report(obs, res):
+def _retry_or_report(obs, res, p=None):
+    """C05 on the event stream: attempts are numbered 0,1,2,...; every failed eject is retried with the next number,
+    reported lost, or (last attempt) the device reports itself broken exactly once and never tries again; never more
+    attempts than max_eject_attempts"""
     pending = {}      # device -> (n, retry)
     broken = {}
+    last_attempt = {}
+    maxes = {} if p is None else {"trough": p["tries_trough"], "plunger": p["tries_plunger"], "lock": p["tries_lock"]}
     for o in obs:
         k = o[1]
         if k == "ball_eject_failed":
@@ -894,13 +899,17 @@ def _retry_or_report(obs, res):
             d, t, n = o[2:]
             if broken.get(d):
                 res.fail("progress:attempt-after-broken:" + d, {"obs": o})
+            if maxes.get(d) and n >= maxes[d]:
+                res.fail("progress:more-attempts-than-max_eject_attempts:" + d, {"obs": o, "max": maxes[d]})
             if pending.get(d) is not None:
                 pn, retry, _ = pending[d]
-                if not retry or n != pn:
-                    res.fail("progress:retry-with-wrong-attempt-number:" + d, {"obs": o, "failed": pending[d]})
+                if not retry or n != pn or n != last_attempt.get(d, -1) + 1:
+                    res.fail("progress:retry-with-wrong-attempt-number:" + d,
+                             {"obs": o, "failed": pending[d], "previous_attempt": last_attempt.get(d)})
                 pending[d] = None
             elif n != 0:
                 res.fail("progress:retry-without-failure:" + d, {"obs": o})
+            last_attempt[d] = n
         elif k == "lost_ejected":
             pending[o[2]] = None
         elif k == "broken":
